@@ -93,6 +93,19 @@ Theorem C14_bad_images_rejected :
 Proof. exact bad_vars_rejected_today. Qed.
 Print Assumptions C14_bad_images_rejected.
 
+(* limits of loaded_wf: values inside every range the loader checks that fend
+   never produces are accepted and written back unchanged -- 31 April, 30 and
+   29 February 2023, a distribution with no outcome, limb vectors with leading
+   zero limbs.  wf_sem does not exclude them because evaluation tolerates them
+   (observed by the check's evaluation battery on every run); tightening the
+   loader is the optional notes/C14_validate_calendar_dist.patch *)
+Theorem C14_loaded_impossible_values_accepted :
+  forallb (fun m => match run (de_vars (cfg_today sizes_x64)) (ser_vars m) with
+                    | Ok (m', []) => wfs_vars m' && list_N_eqb (ser_vars m') (ser_vars m)
+                    | _ => false end) odd_vars = true.
+Proof. exact odd_vars_load_today. Qed.
+Print Assumptions C14_loaded_impossible_values_accepted.
+
 (* ---- the repaired defects (code as pinned) ---- *)
 
 (* fixed 076760b: 16 bytes whose second length field is 2^63 reached
